@@ -327,14 +327,15 @@ Definition parents (l : list (rlabel * nat)) : option (list (option rlabel)) :=
     ps <- parents_from (match a with O => [] | _ => [(x, a)] end) r ;; Some (None :: ps)
   end.
 
-(* parents[j].lower() == 'pow'  (AttributeError when parents[j] is None) *)
+(* parents[j] is not None and parents[j].lower() == 'pow'   (the root has no parent: not under pow) *)
 Definition parent_is_pow (p : option rlabel) : option bool :=
   match p with
-  | None => None
+  | None => Some false
   | Some q => Some (String.eqb (lower (show_rlabel q)) "pow")
   end.
 
-(* replace floats: numbers whose parent is not pow, and all parameters, become a0, a1, ... in list order *)
+(* replace floats: numbers whose parent is not pow (a number at the root included), and all parameters, become
+   a0, a1, ... in list order *)
 Fixpoint replace_from (k : nat) (l : list (rlabel * option rlabel)) : option (list rlabel) :=
   match l with
   | [] => Some []
